@@ -271,7 +271,11 @@ impl Renderer {
                 let x = self.fresh(ctx, &[&node.kids[0]]);
                 let (c2, t2) = push(ctx, tys, &x, &t["a"]);
                 let b = self.term(&node.kids[0], &c2, &t2);
-                wrap(format!("fn ({x} : {}) => {b}", ty(&t["a"])), &json!({"t":"fn","a":t["a"],"c":t["c"]}))
+                // a binder the body does not use is written as a wildcard in every second rendering
+                let mut used = Vec::new();
+                Self::used_levels(&node.kids[0], &mut used);
+                let shown = if !used.contains(&(ctx.len() + 1)) && self.rng.chance(1, 2) { "_".to_string() } else { x };
+                wrap(format!("fn ({shown} : {}) => {b}", ty(&t["a"])), &json!({"t":"fn","a":t["a"],"c":t["c"]}))
             }
             | "vlam" => {
                 let x = self.fresh(ctx, &[&node.kids[0]]);
